@@ -36,6 +36,15 @@ CHECKS = {
                 rule="Same engine, 5 sides on 1-2 nameplates/mailboxes of one app; every touch of a third or later side judged by the admitted-sides oracle.",
                 nontrivial_rule="a history counts if a third side touched a mailbox; distinct by history hash.",
                 floors={"quick": {"c05_third_open": 10, "c05_third_claim": 10, "c05_third_close": 5}}),
+    "C06": dict(module="mon.checks.c06", level="exploration",
+                rule="Differential: random histories over 2-3 apps that use identical nameplate names, side strings, phases and message bodies (explicit "
+                     "mailbox ids disjoint per app), with sweeps through the real timer and restarts; each is re-executed once per app with every connection "
+                     "bound to another app removed, and that app's frames, channel rows (joined with their side rows) and usage rows are compared after "
+                     "renaming generated mailbox ids by first appearance. Direct form online on the same histories and on directed families: no command of "
+                     "one app changes a row owned by another.",
+                nontrivial_rule="a pair counts if removing the other apps actually removed steps; distinct by hash of (history, app).",
+                technique="runtime monitoring: differential (metamorphic) comparison of recorded executions + online row-ownership oracle",
+                floors={"quick": {"c06_differential_pair": 500, "c06_pair_with_other_apps_removed": 400, "footprint": 10000}}),
     "C07": dict(module=H, level="exploration",
                 rule="Same engine; per-step frame rule on nameplate rows plus lifetime oracle (held => stored and listed; last release => gone; reclaim refused).",
                 nontrivial_rule="a history counts if a release left other holders or was the last one; distinct by history hash.",
@@ -63,10 +72,26 @@ CHECKS = {
                 nontrivial_rule="a history counts if a sweep met an idle channel that had to be gone or the quiescence oracle ran; distinct by history hash.",
                 floors={"quick": {"c13_must_be_gone": 2000, "c13_empty_at_quiescence": 1500, "c13_sweep_count": 1500,
                                   "c13_injected_sweep_failure": 300, "c13_real_lock_sweep_failure": 30, "sweep_failed_injected": 300}}),
+    "C11": dict(module="mon.checks.c11", level="exploration",
+                rule="Differential at a cut: the prefix of a random history (2 apps, 3 sides, explicit sweeps as history events, clock jumps) is executed once, "
+                     "all connections are dropped and the database files copied; the kept server object and a fresh makeService on the copy then both execute "
+                     "the same continuation (reconnects with the same sides, sweeps before/between/after them); frames after the cut, final channel rows and "
+                     "usage rows must be equal. Directed pairs cover restart->bind->sweep->open orders.",
+                nontrivial_rule="a pair counts if frames were compared after the cut; distinct by hash of (prefix, suffix).",
+                technique="runtime monitoring: differential comparison of a restarted and a non-restarted execution of the real server",
+                floors={"quick": {"c11_pair": 800, "c11_frames_compared": 20000, "c11_pair_with_sweep_after_cut": 300}}),
     "C12": dict(module=H, level="exploration",
                 rule="Same engine, sweeps fired by the real TimerService on a virtual clock; every sweep judged by the must-survive oracle per mailbox.",
                 nontrivial_rule="a history counts if a sweep met a mailbox that had to survive; distinct by history hash.",
                 floors={"quick": {"c12_must_survive": 500, "c12_must_survive_subscribed": 50}}),
+    "C14": dict(module="mon.checks.c14", level="exploration",
+                rule="Differential: each random or directed history is executed once, then once more per chosen acknowledged claim/release/open/close with "
+                     "that command re-sent at the same virtual instant on a fresh connection of the same app and side (nameplate/mailbox named explicitly, same "
+                     "mood) which is then dropped; the duplicate's answer, all later frames of the original connections and the final channel rows "
+                     "(timestamps included) are compared after renaming generated ids.",
+                nontrivial_rule="a history counts if it had at least one eligible acknowledged command; distinct by history hash.",
+                technique="runtime monitoring: differential comparison of executions with and without a duplicated command",
+                floors={"quick": {"c14_duplicate_pair": 1500, "c14_dup_claim": 200, "c14_dup_release": 150, "c14_dup_open": 200, "c14_dup_close": 150}}),
     "C15": dict(module=H, level="exploration",
                 rule="Same engine with a usage database; every retirement judged by the conservation monitor and an independent classifier.",
                 nontrivial_rule="a history counts if a retirement record was classified; distinct by history hash.",
@@ -82,6 +107,14 @@ CHECKS = {
                      "fragments, empty, 10 kB); every frame and every step judged by the per-connection protocol oracle written from docs/server-protocol.md.",
                 nontrivial_rule="a history counts if it contains a command classified as definitely rejected; distinct by history hash.",
                 floors={"quick": {"rejected_cmd": 2000, "ack_first": 20000, "ping_pong": 500, "welcome": 1000, "error_has_orig": 2000}}),
+    "C18": dict(module="mon.checks.c18", level="exploration",
+                rule="Differential across configurations: each random history is executed under the base configuration (listing allowed, no usage db, no "
+                     "blur) and under sampled (thorough: all 15) other combinations of {listing} x {usage db} x {blur none/1/61/3600}; every frame except "
+                     "`nameplates`/`welcome` and every channel row must be identical. Separately every `list` answer of histories run under listing allowed "
+                     "and disallowed is judged online: exactly the live nameplates of the caller's app, each once / always empty.",
+                nontrivial_rule="a history counts if all its configuration pairs were compared; distinct by history hash.",
+                technique="runtime monitoring: differential comparison across configurations + online oracle on list answers",
+                floors={"quick": {"c18_config_pair": 1200, "list_answer": 10000}}),
 }
 
 LEVEL_TEXT = ("Exploration by runtime monitoring: the real server code is executed on thousands of generated and directed "
